@@ -611,6 +611,19 @@ class Evolver:
                     if all(q["name"] != p_["name"] for q in sr[0]["properties"]) and any(s["name"] == "SelectionRangeParams" for s in self.doc["structures"]):
                         sr[0]["properties"].append(p_)
                         self.edits.append({"edit": "E2-new-property", "structure": "SelectionRange", "property": p_["name"], "type": p_["type"], "optional": bool(p_.get("optional"))})
+            # the structures some plugin writes by hand (SelectionRange in rust, InitializedParams in dotnet) get a new parent:
+            # what they inherit has to appear as for any other structure
+            mix = self.fresh_type_name("VfSpecialMixin")
+            q1, q2 = "vfMixedIn", "vfMixedInToo"
+            self.doc["structures"].append({"name": mix, "properties": [{"name": q1, "type": {"kind": "base", "name": "string"}, "optional": True},
+                                                                        {"name": q2, "type": {"kind": "or", "items": [{"kind": "base", "name": "uinteger"}, {"kind": "base", "name": "null"}]}}]})
+            self.new_structs.append(mix)
+            self.edits.append({"edit": "E1-new-structure", "name": mix, "properties": [q1, q2]})
+            for target, how in (("SelectionRange", "mixins"), ("InitializedParams", "extends")):
+                st_ = [s_ for s_ in self.doc["structures"] if s_["name"] == target]
+                if st_ and not st_[0].get(how):
+                    st_[0][how] = [{"kind": "reference", "name": mix}]
+                    self.edits.append({"edit": "E7-new-parent", "structure": target, how: mix})
             return
         if focus == "nested-literals":
             # literals inside literals (as LSP 3.17 had under ServerCapabilities.workspace): the inner literal is the first
